@@ -3,6 +3,9 @@
 package tmengine
 
 import (
+	"context"
+	"log/slog"
+
 	"github.com/gordian-engine/gordian/gcrypto"
 	"github.com/gordian-engine/gordian/tm/tmconsensus"
 	"github.com/gordian-engine/gordian/tm/tmengine/internal/tmmirror"
@@ -19,4 +22,14 @@ func VerifNewVoteDistribution(
 	proofs map[string]gcrypto.CommonMessageSignatureProof, vals []tmconsensus.Validator,
 ) (available, present uint64, blockPower map[string]uint64) {
 	return tmmirror.VerifNewVoteDistribution(proofs, vals)
+}
+
+// VerifC06MirrorConfig and VerifC06Mirror let the verification harness construct the real mirror
+// (the public NewMirror cannot be used with a signature or hash scheme option).
+type VerifC06MirrorConfig = tmmirror.MirrorConfig
+
+type VerifC06Mirror = tmmirror.Mirror
+
+func VerifC06NewMirror(ctx context.Context, log *slog.Logger, cfg VerifC06MirrorConfig) (*VerifC06Mirror, error) {
+	return tmmirror.NewMirror(ctx, log, cfg)
 }
